@@ -211,7 +211,7 @@ def run(ctx):
     ctx.assumptions += [
         "tree ids are collision-free hashes of the serialised tree: equality of ids is modelled as equality of tree values (node_eqb)",
         "names are ordered as the raw (unescaped) file names, bytewise - the order trees are stored in and, since fix 54f57aa, the order merge compares; input trees of merge are strictly sorted in that order at every level (wf_tree), checked on every case; unsorted inputs are only run through the literal loop model",
-        "the abstract merge (theorems) vs the loop as written on std's BinaryHeap (merge_loop, executable): refinement tested on every sorted tie-free case, not proved",
+        "the loop as written (merge_loop_gen) is proved correct for every priority queue meeting pq_spec; that the extracted BinaryHeap transcription (heap_push/heap_pop) meets pq_spec is trusted, and it is compared exactly with the implementation on every case",
         "cmp is a total preorder (reflexive, transitive, Gt antisymmetric): holds for last_modified_node and the other comparisons used",
         "TreeModifier visitor caches (changed/unchanged maps keyed by tree id resp. (path, id)) are memoisation of a function of the key and are not modelled",
         "copy: the blobs reach the destination through the packer pipeline of C13 (any interleaving); source repository closed (every reachable blob indexed in the source)",
